@@ -18,7 +18,10 @@ def Members.names : Members → List (Option Name)
 
 /- `Canon t v`: v is an in-domain value of t in the canonical form `decode` returns.
     Covers the tail-safe fragment (no unbounded array, no n_bytes(-1)); arrays of bit strings,
-    length-prefixed arrays, STRINGN/STRINGI and StructTag have their own statements. -/
+    length-prefixed arrays, STRINGI and StructTag have their own statements (CodecRoundTripExt.lean).
+    STRINGN: the character size given at encode time must be 1, 2 or 4 and the text must be one code
+    unit per character in that size's codec (size 1 is UTF-8, so ASCII only).  IPAddress: the canonical
+    value is the dotted quad `decode` renders. -/
 mutual
 def Canon : Ty → PyVal → Prop
   | .bool, v => ∃ b, v = .bool b
@@ -27,7 +30,7 @@ def Canon : Ty → PyVal → Prop
   | .lreal, v => ∃ b, v = .float b ∧ b < 2 ^ 64
   | .dateAndTime, v => ∃ t d : Int, v = .tuple [.int t, .int d] ∧ 0 ≤ t ∧ t < 2 ^ 32 ∧ 0 ≤ d ∧ d < 2 ^ 16
   | .str lenK enc, v => ∃ cs, v = .str cs ∧ lenK.signed = false ∧ TextOk enc cs ∧ (cs.length : Int) ≤ lenK.hi
-  | .stringN _, _ => False
+  | .stringN c, v => ∃ enc cs, stringNEnc c = some enc ∧ v = .str cs ∧ TextOk enc cs ∧ cs.length < 65536
   | .stringI, _ => False
   | .bits k, v => ∃ bs : List Bool, v = .list (bs.map PyVal.bool) ∧ bs.length = 8 * k.size ∧ k.signed = false
   | .nbytes n, v => ∃ bs, v = .bytes bs ∧ 0 < n ∧ (bs.length : Int) = n
@@ -37,7 +40,7 @@ def Canon : Ty → PyVal → Prop
   | .fixedStr size lenK, v => ∃ cs, v = .str cs ∧ lenK.signed = false ∧ (∀ c ∈ cs, c < 256) ∧
         cs.length ≤ size ∧ 0 < size ∧ (cs.length : Int) ≤ lenK.hi
   | .structTag _ _ _ _, _ => False
-  | .ipAddr, _ => False
+  | .ipAddr, v => ∃ bs : Bytes, bs.length = 4 ∧ v = .str (renderIPv4 bs)
 /-- canonical dict of an all-named struct: exactly the members, in member order, distinct non-empty names -/
 def CanonMembers : Members → List (Name × PyVal) → Prop
   | .nil, kvs => kvs = []
